@@ -4,14 +4,15 @@ import Bluebell.ToXml
 
 `resolveDisplaced` (footnotes), `normalise`, eId generation (`rewriteAll`), `setAttachmentTitles`,
 and the `akomaNtoso`/meta wrapping of root documents. Element identity (lxml objects) is modelled by
-numbering every element in document order in a reserved attribute, removed again at the end.
+numbering every element in document order in a reserved attribute (in unary, so that the kernel can
+evaluate it), removed again at the end.
 -/
 namespace Bluebell
 
 def idAttr : String := "\u0001id"
 
 def Xml.nid : Xml → Nat
-  | .elem _ a _ => ((a.lookup idAttr).bind String.toNat?).getD 0
+  | .elem _ a _ => ((a.lookup idAttr).map (fun v => v.toList.length)).getD 0
   | .text _ => 0
 
 mutual
@@ -19,7 +20,7 @@ def numberX : Xml → Nat → Xml × Nat
   | .text s, n => (.text s, n)
   | .elem t a ks, n =>
     let (ks', n') := numberL ks (n + 1)
-    (.elem t ((idAttr, toString (n + 1)) :: a) ks', n')
+    (.elem t ((idAttr, String.ofList (List.replicate (n + 1) 'i')) :: a) ks', n')
 def numberL : List Xml → Nat → List Xml × Nat
   | [], n => ([], n)
   | k :: ks, n =>
